@@ -14,7 +14,7 @@ static struct {
     secp256k1_keypair kp_other; secp256k1_pubkey pk_other;
     secp256k1_musig_keyagg_cache cache[MN_KEY + 2];
     secp256k1_musig_secnonce obj[MN_OBJ];
-    unsigned char buf[MN_BUF][32];
+    unsigned char buf[MN_BUF][64];   /* 32 bytes of session randomness each, followed by 32 guard bytes (0xA5) that are NOT part of the argument */
     /* per generated nonce */
     int nids;
     unsigned char kbytes[MN_IDS][64];
@@ -38,6 +38,7 @@ static void mn_make_session(secp256k1_musig_session *session, const secp256k1_mu
 static void op_MnSetup(const jv *in, jout *out) {
     int i; unsigned char seed[32], osk[32]; secp256k1_musig_secnonce sn; secp256k1_musig_pubnonce pn0;
     memset(&MN, 0, sizeof(MN));
+    { int gb; for (gb = 0; gb < MN_BUF; gb++) memset(MN.buf[gb] + 32, 0xA5, 32); }
     MN.nkey = (int)jv_int(in, "nkey", 2); MN.nobj = (int)jv_int(in, "nobj", 2); MN.nbuf = (int)jv_int(in, "nbuf", 1);
     memset(MN.msg, 0x4d, 32);
     for (i = 0; i < MN.nkey; i++) { memset(MN.sk[i], 0, 32); MN.sk[i][31] = (unsigned char)(11 + 2 * i); MN.sk[i][0] = 0x01; }
@@ -140,6 +141,15 @@ static void op_MnNonceGenCounter(const jv *in, jout *out) {
 }
 /* k = keypair handed to the call.  The session is the one prepared for the nonce the object holds
  * (so that a produced signature can be attributed to a nonce by partial_sig_verify). */
+/* "ctxstatic": 1 = partial_sign is called on a COPY of secp256k1_context_static (signing a partial signature needs no generator
+ * tables; the copy carries the harness' counting callbacks, so an illegal-argument callback returns instead of aborting) */
+static secp256k1_context *MN_STATIC = NULL;
+static const secp256k1_context *mn_sign_ctx(const jv *in) {
+    if (!jv_int(in, "ctxstatic", 0)) return CTX;
+    if (!MN_STATIC) { MN_STATIC = (secp256k1_context*)malloc(sizeof(*MN_STATIC)); memcpy(MN_STATIC, secp256k1_context_static, sizeof(*MN_STATIC));
+                      secp256k1_context_set_illegal_callback(MN_STATIC, vh_illegal_cb, NULL); secp256k1_context_set_error_callback(MN_STATIC, vh_error_cb, NULL); }
+    return MN_STATIC;
+}
 static void op_MnPartialSign(const jv *in, jout *out) {
     int o = (int)jv_int(in, "o", 0), k = (int)jv_int(in, "k", 0), ret, i, id = -1, sigfor = -1;
     secp256k1_musig_partial_sig sig; secp256k1_keypair zerokp; secp256k1_musig_keyagg_cache badcache; secp256k1_musig_session badsession;
@@ -149,7 +159,7 @@ static void op_MnPartialSign(const jv *in, jout *out) {
         for (i = 0; i < MN.nids; i++) if (!memcmp(MN.kbytes[i], &MN.obj[o].data[4], 64)) id = i;
     if (id >= 0) { sess = &MN.session[id]; ckey = MN.idkey[id]; }
     memset(&sig, 0, sizeof(sig));      /* "produces no signature": a failed call must leave the (all-zero) output object all-zero */
-    ret = secp256k1_musig_partial_sign(CTX,
+    ret = secp256k1_musig_partial_sign(mn_sign_ctx(in),
         mn_is(in, "out_null") ? NULL : &sig,
         mn_is(in, "secnonce_null") ? NULL : &MN.obj[o],
         mn_is(in, "keypair_null") ? NULL : (mn_is(in, "keypair_invalid") ? &zerokp : &MN.kp[k]),
